@@ -189,6 +189,7 @@ def translation(f, ref) -> dict:
         return {}
     cur = describe(f)
     cur_locals = set(cur["locals"])
+    _comprehension_scoped(f, ref, cur_locals, ref_locals)
     from collections import Counter
     rc = Counter(h for h, _ in ref["shapes"])
     cc = Counter(h for h, _ in cur["shapes"])
@@ -221,6 +222,50 @@ def translation(f, ref) -> dict:
     # every piece that mentions a translated name must have been matched, otherwise part of its uses are unexplained:
     # keep the translation anyway (alpha-renaming is sound whatever the reason), the rules then see the reference name everywhere
     return out
+
+
+def _comp_bound(piece) -> set:
+    out = set()
+    for n in ast.walk(piece):
+        if isinstance(n, ast.comprehension):
+            for x in ast.walk(n.target):
+                if isinstance(x, ast.Name):
+                    out.add(x.id)
+    return out
+
+
+def _comprehension_scoped(f, ref, cur_locals, ref_locals):
+    """Comprehension variables live in the comprehension only, and one short name is often reused by several comprehensions of a
+    function; they are translated piece by piece (in place): in a piece whose shape matches its reference piece (k-th occurrence
+    with k-th), a comprehension-bound name that the reference function does not know takes the reference name of that position,
+    provided that name is not otherwise used in the piece."""
+    from collections import Counter
+    locs = function_locals(f)
+    rocc = {}
+    for h, names in ref["shapes"]:
+        rocc.setdefault(h, []).append(names)
+    pieces = []
+    for p in _pieces(f):
+        h, names = piece_shape(p, locs)
+        if h is not None and names:
+            pieces.append((p, h, names))
+    cc = Counter(h for _, h, _ in pieces)
+    rc = Counter(h for h, _ in ref["shapes"])
+    seen_k = Counter()
+    for p, h, names in pieces:
+        k = seen_k[h]
+        seen_k[h] += 1
+        if h not in rocc or cc[h] != rc[h] or len(rocc[h][k]) != len(names):
+            continue
+        bound = _comp_bound(p)
+        m = {}
+        for c, r in zip(names, rocc[h][k]):
+            if c != r and c in bound and c not in ref_locals and r not in names:
+                m[c] = r
+        if m:
+            for n in ast.walk(p):
+                if isinstance(n, ast.Name) and n.id in m:
+                    n.id = m[n.id]
 
 
 def apply(f, mapping):
